@@ -4,7 +4,7 @@ profiles) together with Expected(M), the mirror the statement prescribes. Each M
 parse_XML_buffer (and the file entry point, which drops blank nodes) and the canonical dump, projected on the mirror's
 fields, must equal Expected(M): order, nothing added / dropped / duplicated / re-attached, endpoints through ids,
 argument i bound to parameter i. Spec side: Builder.tla x XmlReader.tla (C08) derive the same mirror from the callbacks."""
-import json, os
+import json, re, os
 import vf, docgen, xmlgen
 
 
@@ -31,6 +31,80 @@ def classify(c, e, r, tag, xml):
     if doc.get("c08"):
         c.cov["c08_violations_seen"] = c.cov.get("c08_violations_seen", 0) + len(doc["c08"])
     return True
+
+
+# ---- invariants that carry clock rates: the library stores them as `1 && <conjuncts>`; the conjuncts must be those of the source - nothing added, dropped or duplicated
+RATE_INVS = ["x <= 5 && forall (q : id_t) hz[q]' == 0", "forall (q : id_t) hz[q]' == 0", "x <= 5 && hz[0]' == 0", "x' == 2 && x <= 5", "x' == 2",
+             "forall (q : id_t) hz[q]' == 0 && x <= 5 && hz[1] <= 3", "x <= 5 && forall (q : id_t) (hz[q]' == 0 && hz[q] <= 7)", "forall (q : id_t) forall (r : id_t) hz[q]' == r",
+             "x <= 5 && forall (q : id_t) hz[q] <= 5", "hz[0]' == 1 && hz[1]' == 0 && x <= 2"]
+
+
+def _conjuncts(s):
+    """top-level conjuncts of an expression text, without blanks and without redundant outer parentheses"""
+    out, depth, cur = [], 0, ""
+    i = 0
+    while i < len(s):
+        ch = s[i]
+        if ch in "([":
+            depth += 1
+        elif ch in ")]":
+            depth -= 1
+        if depth == 0 and s.startswith("&&", i) and not cur.replace(" ", "").startswith(("forall(", "exists(", "sum(")):        # the body of a quantifier extends as far to the right as it can
+            out.append(cur)
+            cur = ""
+            i += 2
+            continue
+        cur += ch
+        i += 1
+    out.append(cur)
+    res = []
+    for x in out:
+        x = x.replace(" ", "")
+        while x.startswith("(") and x.endswith(")") and _balanced(x[1:-1]):
+            x = x[1:-1]
+        m = re.match(r"^((?:forall|exists|sum)\([a-z]+:[a-z_]+\))\((.*)\)$", x)
+        while m and _balanced(m.group(2)):          # parentheses around the whole body of a quantifier are redundant
+            x = m.group(1) + m.group(2)
+            m = re.match(r"^((?:forall|exists|sum)\([a-z]+:[a-z_]+\))\((.*)\)$", x)
+        res.append(x)
+    return sorted(res)
+
+
+def _balanced(s):
+    d = 0
+    for ch in s:
+        d += ch == "("
+        d -= ch == ")"
+        if d < 0:
+            return False
+    return d == 0
+
+
+def rate_part(c):
+    jobs = []
+    for k, inv in enumerate(RATE_INVS):
+        for flag in ("", "urgent A; "):
+            jobs.append({"id": "r%d%s" % (k, flag[:1]), "entry": "xta", "inv": inv,
+                         "text": "typedef int[0,2] id_t; clock x; clock hz[3]; process P(){ state A { %s }, B; %sinit A; trans A -> B { }; } system P;" % (inv, flag)})
+            m = {"decl": "typedef int[0,2] id_t; clock x; clock hz[3];", "templates": [{"name": "P", "locations": [{"id": "id0", "name": "A", "inv": inv}, {"id": "id1", "name": "B"}], "init": "id0",
+                 "edges": [{"src": "id0", "dst": "id1"}]}], "system": "system P;"}
+            jobs.append({"id": "x%d%s" % (k, flag[:1]), "entry": "xml_buffer", "inv": inv, "text": xmlgen.render_xml(m)})
+    res = vf.run_jobs([{k: v for k, v in j.items() if k != "inv"} for j in jobs], c.run_dir, variant="plain", name="c04rate")
+    n = 0
+    for j in jobs:
+        r = res[j["id"]]
+        doc = r.get("dump", {}).get("doc") if r.get("dump", {}).get("outcome") == "return" else None
+        if doc is None or doc["errors"]:
+            c.finding("c04:rate-invariant:rejected", "a model whose location invariant is `%s` is not read: %s" % (j["inv"], json.dumps((doc or {}).get("errors", r.get("main")))[:200]), {"text": j["text"], "invariant": j["inv"]})
+            continue
+        n += 1
+        got = doc["templates"][0]["locations"][0].get("inv") or ""
+        want = _conjuncts(j["inv"].replace("forall (q : id_t)", "forall(q:id_t)").replace("forall (r : id_t)", "forall(r:id_t)"))
+        have = [x for x in _conjuncts(got) if x != "1"]
+        if have != want:
+            c.finding("c04:rate-invariant:conjuncts", "the invariant `%s` is stored as `%s`: its conjuncts are %s, those of the source %s" % (j["inv"], got, have, want), {"text": j["text"], "invariant": j["inv"], "stored": got})
+    c.cov["rate_invariants_compared"] = n
+    return n
 
 
 def run(tier):
@@ -101,6 +175,7 @@ def run(tier):
                     k, x["spec"][k:k + 1], x["real"][k:k + 1], x["spec_outcome"], x["real_outcome"]))
     c.cov["reader_traces_on_models"] = len(rc)
     c.cov["reader_trace_disagreements_on_models"] = nrd
+    ncmp += rate_part(c)
     c.cov["traces_validated_against_impl"] = ncmp
     c.cov["evaluations"] = ncmp
     c.cov["distinct_nontrivial"] = sum(1 for e in models if any(t["edges"] for t in e["m"]["templs"]))
